@@ -49,15 +49,15 @@ theorem stories_in_order (d : Xml) (v : RoView) (h : roView d = .ok v) :
   · rw [h3]
     rcases roStories_inv hvs with ⟨he, rfl⟩ | ⟨st', offs, _, _, hm⟩
     · rw [he]; rfl
-    · apply mapExcept_map_eq _ _ _ hm
-      intro a b hab
+    · apply viewsFrom_map_eq _ _ _ hm
+      intro a o b hab
       obtain ⟨_, _, _, _, _, _, hid, hsl, _⟩ := storyView_inv hab
       rw [hid, hsl]
   · rw [h3]
     rcases roStories_inv hvs with ⟨he, rfl⟩ | ⟨st', offs, _, _, hm⟩
     · rw [he]; rfl
-    · apply mapExcept_map_eq _ _ _ hm
-      intro a b hab
+    · apply viewsFrom_map_eq _ _ _ hm
+      intro a o b hab
       obtain ⟨_, _, _, _, _, _, _, _, _, _, _, hit⟩ := storyView_inv hab
       rw [hit, List.map_map]
       rfl
@@ -84,8 +84,8 @@ theorem items_agree (d : Xml) (v : RoView) (h : roView d = .ok v) :
   rw [h3]
   rcases roStories_inv hvs with ⟨he, rfl⟩ | ⟨st', offs, _, _, hm⟩
   · rw [he]; rfl
-  · apply mapExcept_map_eq _ _ _ hm
-    intro a b hab
+  · apply viewsFrom_map_eq _ _ _ hm
+    intro a o b hab
     obtain ⟨_, _, _, _, _, _, _, _, _, _, _, hit⟩ := storyView_inv hab
     rw [hit, List.map_map]
     apply List.map_congr_left
@@ -116,7 +116,7 @@ theorem absent_is_none (d : Xml) (v : RoView) (h : roView d = .ok v) :
     · rw [he] at hk'; simp at hk'
     · rw [hst] at hst'
       cases hst'
-      have hview := mapExcept_getElem hm k hk hk'
+      have hview := viewsFrom_getElem hm k hk hk'
       obtain ⟨d', st1, en, hd, hs1, hen, _, _, hdur, hstart, hstop, _⟩ := storyView_inv hview
       have hd0 : storyDuration ((rc.findall "story")[k]) = .ok none := by
         unfold storyDuration; rw [hp]
